@@ -781,7 +781,14 @@ class PendingAugAssign(PendingNode[AugAssign]):
             # todo: could be optimized if slice is const
             tmp_slice_name = Name(id=ol_name(OL_AUGASSIGN_SLICE_TMP))
             target = self.node.target
-            subscript_parent = expr_transf(self.nsp, target.value)
+            # evaluate the object once (before the index, like Python does) and keep it in a tmp
+            subscript_parent = Name(id=ol_name(OL_AUGASSIGN_OBJECT_TMP))
+            return_list.append(
+                NamedExpr(
+                    target=subscript_parent,
+                    value=expr_transf(self.nsp, target.value),
+                )
+            )
 
             slice_expr = utils.convert_index(target.slice)
 
@@ -824,7 +831,14 @@ class PendingAugAssign(PendingNode[AugAssign]):
             )
         elif isinstance(self.node.target, Attribute):
             target = self.node.target
-            attr_parent = expr_transf(self.nsp, target.value)
+            # evaluate the object once and keep it in a tmp
+            attr_parent = Name(id=ol_name(OL_AUGASSIGN_OBJECT_TMP))
+            return_list.append(
+                NamedExpr(
+                    target=attr_parent,
+                    value=expr_transf(self.nsp, target.value),
+                )
+            )
             return_list.append(
                 NamedExpr(
                     target=tmp_target_name,
